@@ -4,13 +4,16 @@ import Proofs.SqlLinks
 import Proofs.SqlInfer
 import Proofs.SqlParserTotal
 import Proofs.SqlLoadBridge
+import Proofs.SqlRegex
 
 /-!
   C01 — Persisted models load back unchanged (schema, values, links).
   Property theorems only (helper lemmas: Proofs/SqlChars.lean, SqlLexer.lean, SqlStep.lean, SqlCodec.lean,
   SqlParser.lean, SqlTokenRoundtrip.lean, SqlCharLex.lean, SqlCharRoundtrip.lean, SqlRoutes.lean, SqlFixedPoint.lean).
-  Model: PyxModel/Sql — character-level lexer following the rule order of Gen/SqlLex.lean with PLY / `re` semantics
-  hand-modelled per rule, parser, value printers and readers, the writers of xtuml/persist.py.
+  Model: PyxModel/Sql — character-level lexer following the rule order of Gen/SqlLex.lean; its hand-written matchers are
+  PROVED to be the generic regex engine (Python `re` semantics) on the parse trees generated from the `t_*` regexes of the
+  source (`lexer_is_source_regex`; rule by rule in Props/C12.lean), parser, value printers and readers, the writers of
+  xtuml/persist.py.
   `u : UC` is Python's view of the non-ASCII characters (`\d`, `\w`, `str.upper`); every theorem holds for all of them.
   Not modelled: the conversion between binary floats and decimal numerals (a REAL value is its six-decimal numeral);
   the key-matching join that recomputes links (C03) -- `linksOfAssoc` (PyxModel/Sql/Links.lean) is its SPECIFICATION (the
@@ -41,6 +44,10 @@ theorem calls_tie : Gen.Persist.calls = modelledCalls := rfl
 theorem regex_tie (r : Rule) : Rule.regex r = modelledRegex r := by cases r <;> rfl
 theorem grammar_tie : Gen.SqlLex.grammar = modelledGrammar ∧ Gen.SqlLex.cardinalityChecks = modelledCardinalityChecks :=
   ⟨rfl, rfl⟩
+
+/-- the lexer of all the theorems below IS the source regexes: its token stream is the one the generic regex engine produces on
+    the parse trees generated from the `t_*` regexes of xtuml/load.py (every rule: Props/C12.lean `sql_scanner_is_regex_*`) -/
+theorem lexer_is_source_regex (u : UC) (hu : u.PyTables) (cs : Text) : lexRx u cs = lex u cs := lexRx_eq_lex u hu cs
 
 /-! ### value codecs -/
 
